@@ -624,6 +624,15 @@ Definition ref_class (c : bool * bool * list Z * option (rule * list Z)) : Z :=
     | ROk _ _ => 0
     | RErr e _ => match e with EUndefined => 1 | ETruncated => 2 | ENoEOL => 3 | EOrder => 4 | EPrefix => 5 | ELength => 6 | ERd => 7 end
     end end.
+Definition has_off (cs : list comp) : bool :=
+  existsb (fun c => match c with CPfx _ _ o _ => negb (o =? 0) | COps _ _ => false end) cs.
+(* 1 when the RFC reading of the NLRI meets an IPv6 prefix with a non-zero offset (before any fault) *)
+Definition ref_off (c : bool * bool * list Z * option (rule * list Z)) : Z :=
+  match c with (v6, vpn, b, _) =>
+    match ref_flow v6 vpn b with
+    | ROk r _ => if has_off (r_comps r) then 1 else 0
+    | RErr _ bf => if has_off bf then 1 else 0
+    end end.
 Definition ok_act (c : action * list Z) : bool :=
   match c with (a, e) => leqb (enc_action a) e && leqb (ref_action a) e end.
 """
@@ -729,39 +738,144 @@ def enc_desc(rule, res):
             'text': (render_conf(rule) if rule['via'] == 'conf' else render_api(rule))[:2000] if rule['via'] != 'direct' else None,
             'components': [list(c[:5]) if c[0] == 'pfx' else [c[0], c[1], [list(o) for o in c[2]][:40]] for c in rule['comps']],
             'rfc_body_length': rfc_body_len(rule),
-            'implementation': [res[0], bytes(res[1]).hex()[:400] if res[0] == 'bytes' else res[1]]}
+            'implementation': [res[0], bytes(res[1]).hex()[:400] if res[0] == 'bytes' else res[1]],
+            'replay': {'kind': 'enc', 'rule': jrule(rule)}}
 
 
 def dec_desc(case, res):
     r = list(res)
     return {'direction': 'decode', 'ipv6': case['v6'], 'flow_vpn': case['vpn'], 'nlri_hex': bytes(case['data']).hex()[:600],
-            'nlri_length': len(case['data']), 'fault': case['fault'], 'implementation': json.loads(json.dumps(r, default=str))[:4]}
+            'nlri_length': len(case['data']), 'fault': case['fault'], 'implementation': json.loads(json.dumps(r, default=str))[:4],
+            'replay': {'kind': 'dec', 'case': {'v6': case['v6'], 'vpn': case['vpn'], 'data': list(case['data']), 'fault': case['fault'],
+                                               'has_off': bool(case.get('has_off'))}}}
+
+
+# Every failing case that is a consequence of IPrefix6.pack/make not following RFC 8956 3.1 (pattern =
+# the bits between offset and length, ceil((length-offset)/8) octets) carries this one signature, in both
+# directions; it is the known finding of C16 (qa/encoding/conf-flow.ci pins the bytes).
+OFFSET_SIG = 'ipv6-prefix-offset-not-rfc8956'
+ORACLE_ENC = 'property oracle (encode): bytes read back by Spec_Flow.ref_flow as the written rule, RFC 8955 4.1 length, shortest widths'
+ORACLE_DEC = 'property oracle (decode): NLRIs judged by Spec_Flow.ref_flow / ref_scan'
 
 
 def enc_sig(rule, res):
+    if rule['v6'] and any(c[0] == 'pfx' and c[3] for c in rule['comps']) and res[0] == 'bytes':
+        return OFFSET_SIG
     n = rfc_body_len(rule)
     if res[0] != 'bytes':
         if n is not None and n >= 4095:
             return f'enc:length-{n}:refused'
         return f'enc:{res[0]}:{res[1]}'
-    if rule['v6'] and any(c[0] == 'pfx' and c[3] for c in rule['comps']):
-        return 'enc:ipv6-prefix-offset:not-rfc8956'
     return 'enc:bytes-differ-from-rfc'
 
 
-def v6off(case, res):
-    return case['v6'] and (case.get('has_off') or (res[0] == 'ok' and any(c[0] == 'pfx' and c[3] for c in res[2])))
+def v6off(case, res, ref_off=0):
+    return bool(case['v6'] and (ref_off or case.get('has_off') or (res[0] == 'ok' and any(c[0] == 'pfx' and c[3] for c in res[2]))))
 
 
-def dec_sig(case, res, verdict):
+def dec_sig(case, res, verdict, ref_off=0):
+    if v6off(case, res, ref_off):
+        return OFFSET_SIG
     if verdict == 2:
-        return 'dec:ipv6-prefix-offset:broader' if v6off(case, res) else f'dec:broader:{case["fault"]}'
-    ln = len(case['data'])
-    if res[0] == 'raise' and ln >= 258:
+        return f'dec:broader:{case["fault"]}'
+    if res[0] == 'raise' and len(case['data']) >= 258:
         return 'dec:length>=256:notify-raised'
-    if v6off(case, res):
-        return f'dec:ipv6-prefix-offset:{res[0]}'
     return f'dec:wellformed-not-decoded:{case["fault"]}:{res[0]}'
+
+
+BL = lambda b: 'true' if b else 'false'  # noqa: E731
+
+
+def eval_encode(ecases, eres, tag='c16_e'):
+    """correspondence + oracle for the encode direction -> dict"""
+    judged = [i for i, r in enumerate(eres) if r[0] in ('bytes', 'raise')]
+    items = {i: f'({BL(ecases[i]["v6"])}, {model_rule_of(ecases[i]["rd"], [c[:5] if c[0] == "pfx" else c[:3] for c in ecases[i]["comps"]])}, {obytes(eres[i])})' for i in judged}
+    wt = lambda i: 60 + 12 * sum(len(c[2]) if c[0] == 'ops' else 20 for c in ecases[i]['comps']) + (4 * len(eres[i][1]) if eres[i][0] == 'bytes' and len(eres[i][1]) < 300 else 200)  # noqa: E731
+    m_ok, m_bad, m_logs, _ = coq_eval(tag + 'm', 'bool * mrule * option (list Z)', 'ok_enc_m', items, judged, wt)
+    wf = [i for i in judged if rfc_wellformed(ecases[i])]  # oracle: only rules the RFC can carry
+    s_items, s_idx, enc_fail = {}, [], []
+    for i in wf:
+        c, r = ecases[i], eres[i]
+        n = rfc_body_len(c)
+        if r[0] != 'bytes':
+            if n <= 4095:
+                enc_fail.append(i)  # a rule RFC 8955 can carry (length <= 4095) was not encoded
+            continue
+        if n > 4095:
+            enc_fail.append(i)
+            continue
+        canon = [x[:5] if x[0] == 'pfx' else x[:3] for x in canon_py(c['comps'])]
+        s_items[i] = f'({BL(c["v6"])}, {BL(c["rd"])}, {zbytes(r[1])}, {spec_rule_of(c["rd"], canon)}, {n})'
+        s_idx.append(i)
+    s_ok, s_bad, s_logs, _ = coq_eval(tag + 's', 'bool * bool * list Z * rule * Z', 'ok_enc_s', s_items, s_idx, wt)
+    return {'judged': judged, 'wf': wf, 'm_ok': m_ok, 'm_bad': m_bad, 's_ok': s_ok, 'fail': enc_fail + s_bad, 'logs': m_logs + s_logs}
+
+
+def eval_decode(dcases, dres, tag='c16_d'):
+    crashes = [i for i, r in enumerate(dres) if r[0] == 'crash']
+    didx = [i for i, r in enumerate(dres) if r[0] != 'crash']
+    d_items = {i: f'({BL(dcases[i]["v6"])}, {BL(dcases[i]["vpn"])}, {zbytes(dcases[i]["data"])}, {dres_lit(dres[i])})' for i in didx}
+    dwt = lambda i: 80 + 8 * len(dcases[i]['data']) if len(dcases[i]['data']) < 200 else 2500  # noqa: E731
+    dm_ok, dm_bad, dm_logs, _ = coq_eval(tag + 'm', 'bool * bool * list Z * dres', 'ok_dec_m', d_items, didx, dwt)
+    j_items = {}
+    for i in didx:
+        r = dres[i]
+        got = f'(Some ({spec_rule_of(r[1], r[2])}, {zlist(r[3])}))' if r[0] == 'ok' else 'None'
+        j_items[i] = f'({BL(dcases[i]["v6"])}, {BL(dcases[i]["vpn"])}, {zbytes(dcases[i]["data"])}, {got})'
+    ds_ok, ds_bad, ds_logs, extra = coq_eval(tag + 's', 'bool * bool * list Z * option (rule * list Z)', '(fun c => judge_dec c =? 0)',
+                                             j_items, didx, dwt, evals=('bad', 'judge_dec', 'ref_class', 'ref_off'))
+    return {'crashes': crashes, 'didx': didx, 'm_ok': dm_ok, 'm_bad': dm_bad, 's_ok': ds_ok, 'fail': ds_bad, 'logs': dm_logs + ds_logs,
+            'verdicts': extra.get('judge_dec', {}), 'rclass': extra.get('ref_class', {}), 'ref_off': extra.get('ref_off', {})}
+
+
+def jrule(rule):
+    return {'v6': rule['v6'], 'rd': rule['rd'], 'via': rule['via'], 'then': rule.get('then', 'discard'),
+            'comps': [[c[0], c[1], c[2], c[3], list(c[4]), c[5]] if c[0] == 'pfx' else [c[0], c[1], [list(o) for o in c[2]], c[3]] for c in rule['comps']]}
+
+
+def unjrule(j):
+    r = dict(j, kind='replay')
+    r['comps'] = [tuple(c[:4]) + (list(c[4]), c[5]) if c[0] == 'pfx' else (c[0], c[1], [tuple(o) for o in c[2]], c[3]) for c in j['comps']]
+    return r
+
+
+def replay(path):
+    """./check C16 --replay <file>: run one stored failing case again -> 1 if it still fails, else 0"""
+    d = json.load(open(path))
+    case = d.get('case', d)
+    rp = case.get('replay')
+    if not rp:
+        print(f'[C16] {path}: no replayable case in this file')
+        return 2
+    for name, ok, msg in common.run_translators(['T8']):
+        if not ok:
+            print(f'[C16] translator {name} failed: {msg}')
+            return 2
+    ok, log = common.coq_make(['props/Prop_C16.vo'])
+    if not ok:
+        print('[C16] coq build failed\n' + log[-1500:])
+        common.cleanup()
+        return 2
+    if rp['kind'] == 'enc':
+        rule = unjrule(rp['rule'])
+        res = run_encode(rule)
+        ev = eval_encode([rule], [res], 'c16_re')
+        failing = bool(ev['fail']) or res[0] not in ('bytes', 'raise')
+        sig = enc_sig(rule, res) if failing else None
+        shown = enc_desc(rule, res)
+    else:
+        c = rp['case']
+        res = run_decode(c)
+        ev = eval_decode([c], [res], 'c16_rd')
+        failing = bool(ev['fail']) or res[0] == 'crash'
+        sig = dec_sig(c, res, ev['verdicts'].get(0), ev['ref_off'].get(0, 0)) if failing else None
+        shown = dec_desc(c, res)
+    agree = ev['m_ok'] and ev['s_ok'] and not ev['m_bad']
+    shown.pop('replay', None)
+    print(json.dumps(shown, indent=1)[:3000])
+    print(f'[C16] replay {path}: implementation = model: {agree}; property oracle: {"FAILS sig=" + sig if failing else "holds"}')
+    common.cleanup()
+    return 1 if failing or not agree else 0
 
 
 def check(tier, seed):
@@ -787,32 +901,12 @@ def check(tier, seed):
     ecases = encode_cases(rng, tier)
     eres = [run_encode(c) for c in ecases]
     t_impl = time.time() - t0
-    judged = [i for i, r in enumerate(eres) if r[0] in ('bytes', 'raise')]
     refused = [i for i, r in enumerate(eres) if r[0] not in ('bytes', 'raise')]
     # in-range rules (legal masks/offsets, values within the text ranges) must be accepted by the parser
     bad_refusals = [i for i in refused if rfc_wellformed(ecases[i]) and ecases[i]['via'] != 'direct']
-    items = {i: f'({"true" if ecases[i]["v6"] else "false"}, {model_rule_of(ecases[i]["rd"], [c[:5] if c[0] == "pfx" else c[:3] for c in ecases[i]["comps"]])}, {obytes(eres[i])})' for i in judged}
-    wt = lambda i: 60 + 12 * sum(len(c[2]) if c[0] == 'ops' else 20 for c in ecases[i]['comps']) + (4 * len(eres[i][1]) if eres[i][0] == 'bytes' and len(eres[i][1]) < 300 else 200)
     t0 = time.time()
-    m_ok, m_bad, m_logs, _ = coq_eval('c16_em', 'bool * mrule * option (list Z)', 'ok_enc_m', items, judged, wt)
-    # oracle: only rules the RFC can carry
-    wf = [i for i in judged if rfc_wellformed(ecases[i])]
-    s_items, s_idx, enc_fail = {}, [], []
-    for i in wf:
-        c, r = ecases[i], eres[i]
-        n = rfc_body_len(c)
-        if r[0] != 'bytes':
-            if n <= 4095:
-                enc_fail.append(i)  # a rule RFC 8955 can carry (length <= 4095) was not encoded
-            continue
-        if n > 4095:
-            enc_fail.append(i)
-            continue
-        canon = [x[:5] if x[0] == 'pfx' else x[:3] for x in canon_py(c['comps'])]
-        s_items[i] = f'({"true" if c["v6"] else "false"}, {"true" if c["rd"] else "false"}, {zbytes(r[1])}, {spec_rule_of(c["rd"], canon)}, {n})'
-        s_idx.append(i)
-    s_ok, s_bad, s_logs, _ = coq_eval('c16_es', 'bool * bool * list Z * rule * Z', 'ok_enc_s', s_items, s_idx, wt)
-    enc_fail += s_bad
+    ee = eval_encode(ecases, eres)
+    judged, wf, m_ok, m_bad, s_ok, enc_fail = ee['judged'], ee['wf'], ee['m_ok'], ee['m_bad'], ee['s_ok'], ee['fail']
     t_coq = time.time() - t0
 
     # ---------------------------------------------------------------- decode direction
@@ -820,26 +914,11 @@ def check(tier, seed):
     dcases = decode_cases(rng, tier)
     dres = [run_decode(c) for c in dcases]
     t_impl += time.time() - t0
-    crashes = [i for i, r in enumerate(dres) if r[0] == 'crash']
-    didx = [i for i, r in enumerate(dres) if r[0] != 'crash']
-    bl = lambda b: 'true' if b else 'false'
-    d_items = {i: f'({bl(dcases[i]["v6"])}, {bl(dcases[i]["vpn"])}, {zbytes(dcases[i]["data"])}, {dres_lit(dres[i])})' for i in didx}
-    dwt = lambda i: 80 + 8 * len(dcases[i]['data']) if len(dcases[i]['data']) < 200 else 2500
     t0 = time.time()
-    dm_ok, dm_bad, dm_logs, _ = coq_eval('c16_dm', 'bool * bool * list Z * dres', 'ok_dec_m', d_items, didx, dwt)
-    j_items = {}
-    for i in didx:
-        r = dres[i]
-        got = 'None'
-        if r[0] == 'ok':
-            got = f'(Some ({spec_rule_of(r[1], r[2])}, {zlist(r[3])}))'
-        j_items[i] = f'({bl(dcases[i]["v6"])}, {bl(dcases[i]["vpn"])}, {zbytes(dcases[i]["data"])}, {got})'
-    # judge: use `bad` with a predicate verdict = 0, then fetch the verdicts and the reference class
-    ds_ok, ds_bad, ds_logs, extra = coq_eval('c16_ds', 'bool * bool * list Z * option (rule * list Z)',
-                                             '(fun c => judge_dec c =? 0)', j_items, didx, dwt, evals=('bad', 'judge_dec', 'ref_class'))
+    de = eval_decode(dcases, dres)
+    crashes, didx, dm_ok, dm_bad, ds_ok, ds_bad = de['crashes'], de['didx'], de['m_ok'], de['m_bad'], de['s_ok'], de['fail']
     t_coq += time.time() - t0
-    verdicts = extra.get('judge_dec', {})
-    rclass = extra.get('ref_class', {})
+    verdicts, rclass, ref_offs = de['verdicts'], de['rclass'], de['ref_off']
 
     # ---------------------------------------------------------------- actions
     acases = action_cases(rng, tier)
@@ -850,7 +929,7 @@ def check(tier, seed):
     a_unparsed = [i for i in range(len(acases)) if i not in a_idx]
 
     print(f'[C16] impl {t_impl:.1f}s coq eval {t_coq:.1f}s; encode {len(ecases)} decode {len(dcases)} actions {len(acases)}', flush=True)
-    logs = '\n'.join(m_logs + s_logs + dm_logs + ds_logs + a_logs)[-2500:]
+    logs = '\n'.join(ee['logs'] + de['logs'] + a_logs)[-2500:]
     run.obligation('model evaluation (vm_compute of Model_Flow.enc_flow / dec_flow / enc_action on every case) ran', m_ok and dm_ok and a_ok, logs)
     run.obligation('spec evaluation (vm_compute of Spec_Flow.ref_flow / ref_scan / ref_length / ref_action) ran', s_ok and ds_ok, logs)
     run.obligation(f'every generated in-range rule text is accepted by the parser ({len(ecases) - len(refused)} of {len(ecases)} accepted, '
@@ -860,10 +939,8 @@ def check(tier, seed):
                    f'{len(m_bad)} disagreements, first: {enc_desc(ecases[m_bad[0]], eres[m_bad[0]]) if m_bad else ""}')
     run.obligation(f'correspondence (decode): Flow.unpack_nlri = Model_Flow.dec_flow on {len(didx)} NLRIs', not dm_bad,
                    f'{len(dm_bad)} disagreements, first: {dec_desc(dcases[dm_bad[0]], dres[dm_bad[0]]) if dm_bad else ""}')
-    run.obligation(f'property oracle (encode): bytes of {len(wf)} RFC-expressible rules read back by Spec_Flow.ref_flow as the written '
-                   'rule, RFC 8955 4.1 length, shortest widths', not enc_fail, f'{len(enc_fail)} failing rules')
-    run.obligation(f'property oracle (decode): {len(didx)} NLRIs judged by Spec_Flow.ref_flow / ref_scan', not ds_bad and not crashes,
-                   f'{len(ds_bad)} failing NLRIs, {len(crashes)} crashes')
+    run.obligation(ORACLE_ENC, not enc_fail, f'{len(enc_fail)} failing rules of {len(wf)} RFC-expressible rules')
+    run.obligation(ORACLE_DEC, not ds_bad and not crashes, f'{len(ds_bad)} failing NLRIs of {len(didx)}, {len(crashes)} crashes')
     run.obligation(f'traffic actions: {len(a_idx)} `then` texts -> extended community = Model_Flow.enc_action = Spec_Flow.ref_action',
                    not a_bad and not a_unparsed,
                    f'bad {[(acases[i][0], ares[i]) for i in a_bad[:3]]} unparsed {[(acases[i][0], ares[i]) for i in a_unparsed[:3]]}')
@@ -876,7 +953,7 @@ def check(tier, seed):
         if sig not in best or size < best[sig][0]:
             best[sig] = (size, 'a FlowSpec rule written in text is not encoded as RFC 8955/8956 say', enc_desc(ecases[i], eres[i]))
     for i in ds_bad:
-        sig = dec_sig(dcases[i], dres[i], verdicts.get(i))
+        sig = dec_sig(dcases[i], dres[i], verdicts.get(i), ref_offs.get(i, 0))
         size = len(dcases[i]['data'])
         what = ('an NLRI with an undefined component / truncated value / missing end-of-list is delivered as a rule' if verdicts.get(i) == 2
                 else 'a well-formed FlowSpec NLRI is not decoded to the rule the RFC reference decoder extracts')
